@@ -81,11 +81,39 @@ WidthShapes ==
      p \in {Pat1(t, Wide(WBN, w, Plain)) : t \in {"some", "no"}, w \in W}
            \cup {Pat2(t, Wide(WAN, w1, NoPred), Wide(WBN, w2, Plain)) : t \in {"causes", "forbids", "requires"}, w1 \in W, w2 \in W}}
 
+\* shapes for the monitor (C12): simple activator, the split event is a disjunction x1 | x2,
+\* payload field v, predicates { v = 1 }, { v = @P.v }, { v != @X.v }; time bound none / 1 s / 2 s
+VEq(c)   == Pr(Bn("=", Own("v"), c))
+VNeq(c)  == Pr(Bn("!=", Own("v"), c))
+AV(a)    == Fld(VarR("@" \o a), "v")
+MonScopes == {Scope("globally", NoPred, NoPred),
+              Scope("after", Ev("p", "P", VEq(NumA("1"))), NoPred),
+              Scope("until", NoPred, Ev("q", "", NoPred)),
+              Scope("after_until", Ev("p", "P", NoPred), Ev("q", "", VEq(AV("P")))),
+              Scope("after_until", Ev("p", "", NoPred), Ev("q", "", NoPred))}
+X12(al1, pr1, al2, pr2) == Dj(<<Ev("x1", al1, pr1), Ev("x2", al2, pr2)>>)
+X123 == Dj(<<Ev("x1", "", NoPred), Ev("x2", "", VEq(NumA("1"))), Ev("x3", "", NoPred)>>)
+MonTimes == {[k |-> "notime"], [k |-> "time", num |-> "1", unit |-> "s"], [k |-> "time", num |-> "2", unit |-> "s"]}
+WithTime(p, tm) == [p EXCEPT !.time = tm]
+MonPatterns ==
+  { Pat1("no", X12("", NoPred, "", VEq(NumA("1")))), Pat1("no", X123), Pat1("some", X12("", NoPred, "", VEq(NumA("1")))),
+    Pat2("causes", X12("", NoPred, "", VEq(NumA("1"))), Ev("y", "", NoPred)),
+    Pat2("causes", X12("X", NoPred, "X", NoPred), Ev("y", "", VEq(AV("X")))),
+    Pat2("causes", X12("X", VEq(NumA("1")), "", NoPred), Ev("y", "", VNeq(NumA("1")))),
+    Pat2("forbids", Ev("y", "", NoPred), X12("", NoPred, "", VEq(NumA("1")))),
+    Pat2("forbids", Ev("y", "Y", NoPred), X12("", VEq(AV("Y")), "", VNeq(AV("Y")))),
+    Pat2("forbids", Ev("y", "", VEq(NumA("1"))), X123),
+    Pat2("requires", X12("", NoPred, "", VEq(NumA("1"))), Ev("y", "", NoPred)),
+    Pat2("requires", X12("X", NoPred, "X", NoPred), Ev("y", "", VEq(AV("X")))),
+    Pat2("requires", X12("", VEq(NumA("1")), "", NoPred), Ev("y", "Y", VEq(NumA("1")))) }
+MonShapes == {Prop(s, WithTime(p, tm)) : s \in MonScopes, p \in MonPatterns, tm \in MonTimes}
+
 ShapeMembers ==
   CASE ShapeFamily = "simple" -> SimpleShapes
     [] ShapeFamily = "quant"  -> QuantShapes
     [] ShapeFamily = "disj"   -> DisjShapes
     [] ShapeFamily = "width"  -> WidthShapes
+    [] ShapeFamily = "mon"    -> MonShapes
     [] OTHER -> {}
 
 SInit == cst \in ShapeMembers
